@@ -186,6 +186,36 @@ pub fn check(s: &'static dyn Proto, c: &Case, st: &mut Stats, _k: &KnownFindings
             Ok(_) => return Err(Fail::new("ServerSetup::deserialize succeeded although the external key failed")),
         }
     }
+    // ---- an external key whose serialized form is an opaque handle, not the scalar:
+    // a server restored from ServerSetup::serialize/deserialize must still behave like
+    // the direct-key server (it may only learn the public key by asking the key)
+    remote::reset(0);
+    remote::set_handle_mode(true);
+    let hr = (|| -> CaseResult {
+        let hsetup = s.remote_setup_new_with_key(&mut t(1).rng(), &sk).map_err(|x| e("remote setup (handle mode)", x))?;
+        let hbytes = s.remote_setup_serialize(hsetup.as_ref());
+        ensure!(hbytes != s.ser(Codec::Native, &direct), "HARNESS-BUG: handle mode did not change the serialized key");
+        let restored = s
+            .remote_setup_deserialize(&hbytes)
+            .map_err(|x| Fail::new(format!("a server whose external key serializes as a handle cannot be restored: {x:?}")))?;
+        remote::take_calls();
+        let resp_h = s.remote_server_reg_start(restored.as_ref(), &req, &cred).map_err(|x| e("server reg start (restored, handle)", x))?;
+        ensure_eq!(
+            s.ser(Codec::Native, &resp_h),
+            s.ser(Codec::Native, &resp_d),
+            "registration response of a restored external-key (handle) server differs from the direct-key server"
+        );
+        let (lresp_h, sst_h) = s
+            .remote_server_login_start(&mut t(5).rng(), restored.as_ref(), rec, &lreq, &cred, ctx.as_deref(), ids)
+            .map_err(|x| e("server login start (restored, handle)", x))?;
+        only_allowed(&remote::take_calls(), "ServerRegistration::start/ServerLogin::start (restored server)")?;
+        ensure_eq!(s.ser(Codec::Native, &lresp_h), lresp_d_bytes, "credential response of a restored external-key (handle) server");
+        ensure_eq!(s.ser(Codec::Native, &sst_h), sst_d_bytes, "pending state of a restored external-key (handle) server");
+        Ok(())
+    })();
+    remote::set_handle_mode(false);
+    hr?;
+    st.eval(3);
     remote::reset(0);
     st.label(if c.fake_record { "record:none" } else { "record:real" });
     st.sample(|| json!({"suite": m.name, "pw": c.pw.describe(), "fake_record": c.fake_record,
@@ -203,7 +233,7 @@ pub const BUDGET: Budget = Budget {
 pub fn run(cfg: &RunCfg) -> (Outcome, EvidenceExtra) {
     let out = run_property(cfg, "C18", crate::suites::suites20(), BUDGET, strategy, check);
     let ev = EvidenceExtra {
-        rule: "case = inputs/tapes as C01 (real or absent password file); the server is built twice from the same private key and the same tapes: ServerSetup<CS> and ServerSetup<CS, RemoteKey> where RemoteKey is a harness implementation of the public SecretKey trait that journals every call. Differential oracle: ServerSetup::serialize, registration response, credential response, pending state and both session keys are byte-identical; during ServerRegistration::start / ServerLogin::start / from_private_key only public_key and diffie_hellman are called. Fault oracle: for every call index n the operation makes (ServerLogin::start, KeyPair::from_private_key, ServerSetup::deserialize) a key failing at call n with Custom(n) makes the operation return exactly LibraryError(Custom(n)), without panic and without output; n = calls+1 is the no-fault control. evaluation = one comparison or fault position; distinct by hash of (suite, case)".into(),
+        rule: "case = inputs/tapes as C01 (real or absent password file); the server is built twice from the same private key and the same tapes: ServerSetup<CS> and ServerSetup<CS, RemoteKey> where RemoteKey is a harness implementation of the public SecretKey trait that journals every call. Differential oracle: ServerSetup::serialize, registration response, credential response, pending state and both session keys are byte-identical; during ServerRegistration::start / ServerLogin::start / from_private_key only public_key and diffie_hellman are called. Fault oracle: for every call index n the operation makes (ServerLogin::start, KeyPair::from_private_key, ServerSetup::deserialize) a key failing at call n with Custom(n) makes the operation return exactly LibraryError(Custom(n)), without panic and without output; n = calls+1 is the no-fault control. Additionally an external key whose serialize() is an opaque handle (resolved by its own deserialize) is saved and restored through ServerSetup::serialize/deserialize and must still produce the direct-key server's responses. evaluation = one comparison or fault position; distinct by hash of (suite, case)".into(),
         assumptions: vec!["fault positions are exhaustive per sampled input".into()],
         exhaustive: Some(false),
         extra: Default::default(),
